@@ -112,7 +112,7 @@ def build(spec, p, symbolic, hprio=None):
     # ---- components
     M.comps = []
     for ci, cs in enumerate(spec.get("comps", [])):
-        M.comps.append(BaseComponent("c%d" % ci, ID="c%d" % ci, space_size=val(cs.get("size", 1), p)))
+        M.comps.append(BaseComponent("CP%d" % ci, ID="c%d" % ci, space_size=val(cs.get("size", 1), p)))
         M.comps[-1]._hprio = ci
     for ci, cs in enumerate(spec.get("comps", [])):
         for ch in cs.get("children", []):
@@ -149,9 +149,9 @@ def build(spec, p, symbolic, hprio=None):
             from pDESy.model.base_subproject_task import BaseSubProjectTask
 
             kw.pop("auto_task")
-            t = BaseSubProjectTask(file_path=ts.get("file"), name="t%d" % ti, **kw)
+            t = BaseSubProjectTask(file_path=ts.get("file"), name="T%d" % ti, **kw)
         else:
-            t = TaskCls("t%d" % ti, **kw)
+            t = TaskCls("T%d" % ti, **kw)
         t._hprio = ti if hprio is None else hprio[ti]
         t._idx = ti
         M.tasks.append(t)
@@ -175,10 +175,10 @@ def build(spec, p, symbolic, hprio=None):
         ws = []
         for wsp in ms.get("workers", []):
             wi = len(M.workers)
-            skills = {"t%s" % k: val(v, p) for k, v in wsp.get("skills", {}).items()}
-            fsk = {"f%s" % k: val(v, p) for k, v in wsp.get("fskills", {}).items()}
+            skills = {"T%s" % k: val(v, p) for k, v in wsp.get("skills", {}).items()}
+            fsk = {"F%s" % k: val(v, p) for k, v in wsp.get("fskills", {}).items()}
             wk = BaseWorker(
-                "w%d" % wi,
+                "W%d" % wi,
                 ID="w%d" % wi,
                 team_id="tm%d" % mi,
                 cost_per_time=val(wsp.get("cost", 1), p),
@@ -196,7 +196,7 @@ def build(spec, p, symbolic, hprio=None):
             M.workers.append(wk)
             M.wteam.append(mi)
             M.wspec.append(wsp)
-        tm = BaseTeam("tm%d" % mi, ID="tm%d" % mi, worker_list=ws)
+        tm = BaseTeam("TM%d" % mi, ID="tm%d" % mi, worker_list=ws)
         tm.extend_targeted_task_list([M.tasks[i] for i in ms.get("targets", [])])
         M.teams.append(tm)
 
@@ -209,9 +209,9 @@ def build(spec, p, symbolic, hprio=None):
         fs = []
         for fsp in ps.get("facs", []):
             fi = len(M.facs)
-            skills = {"t%s" % k: val(v, p) for k, v in fsp.get("skills", {}).items()}
+            skills = {"T%s" % k: val(v, p) for k, v in fsp.get("skills", {}).items()}
             fc = BaseFacility(
-                "f%d" % fi,
+                "F%d" % fi,
                 ID="f%d" % fi,
                 workplace_id="wp%d" % pi,
                 cost_per_time=val(fsp.get("cost", 1), p),
@@ -225,7 +225,7 @@ def build(spec, p, symbolic, hprio=None):
             M.facs.append(fc)
             M.fwp.append(pi)
             M.fspec.append(fsp)
-        wp = BaseWorkplace("wp%d" % pi, ID="wp%d" % pi, facility_list=fs, max_space_size=val(ps.get("cap", 1), p))
+        wp = BaseWorkplace("WP%d" % pi, ID="wp%d" % pi, facility_list=fs, max_space_size=val(ps.get("cap", 1), p))
         wp.extend_targeted_task_list([M.tasks[i] for i in ps.get("targets", [])])
         M.wps.append(wp)
     for pi, ps in enumerate(spec.get("wps", [])):
